@@ -12,13 +12,18 @@ Spec == Init /\ [][Next]_cs
 
 Inv_C16 == CaseOk(cs)
 
-Out(c) == [f \in (DOMAIN c \ {"ch"}) |-> IF f = "g" THEN GridOut(c.g) ELSE c[f]]
+Out1(c) == [f \in (DOMAIN c \ {"ch"}) |-> IF f = "g" THEN GridOut(c.g) ELSE c[f]]
+Sub(c)  == [f \in (DOMAIN c \ {"ch", "g"}) |-> c[f]]          \* an operation of a history (same grid)
+Out(c)  == IF c.k = "history" THEN [k |-> c.k, g |-> GridOut(c.g), seq |-> [i \in 1..Len(c.seq) |-> Sub(c.seq[i])]]
+           ELSE Out1(c)
 Emit == PrintT(ToJson(Out(cs)))
 
 -----------------------------------------------------------------------------
 (* Constants of the tiers                                                   *)
 
 Gen3 == <<10, -20, 5>>
+\* histories of operations: on the grids of mesh (1, 2, 3) and origin Gen3 (all node counts, all rotations)
+HistGrid(g) == /\ \A k \in 1..g.nd : g.dx[k] = k /\ g.x0[k] = Gen3[k]
 Neg3 == <<-7, 4, -3>>
 FnVec(nd, v) == [k \in 1..nd |-> v[k]]
 
